@@ -318,6 +318,9 @@ def run_impl(hist, rmodes, lacts=None):
                 st["sess"] = len(sessions) > nsess
                 st["nsess"] = len(sessions) - nsess
                 st["connected"] = bool(p.is_connected)
+                if kind in ("CU", "SW") and st["sess"] and not st["connected"]:
+                    ce = p.connection.last_connector_error      # what failed the attempt (public property)
+                    st["connector_error"] = (type(ce).__name__ + "(" + str(ce)[:60] + ")") if ce else None
                 st["errors"] = len(loop.errors) - nerr
                 if st["errors"]:
                     st["error_kinds"] = sorted({type(c.get("exception")).__name__ + "(" + str(c.get("exception"))[:40] + "):"
@@ -543,6 +546,9 @@ def oracle(hist, rmodes, impl, lacts=None):
         if k in ("CU", "SW") and o["sess"]:
             live = True
             reentrant = any(fires(lacts.get(l, [0, []])[0], {}) and lacts[l][1] for l in registered)
+            ce = o.get("connector_error")
+            if ce and "Set changed size" not in ce:
+                reentrant = False          # the attempt failed for another reason: do not blame the live-set iteration
             for l in sorted(registered - unobs):
                 if by.get(l, []) != [[]]:
                     bad.append(("connup:listener-not-notified" + (":reentrant-registry-change" if reentrant else ""),
@@ -555,7 +561,8 @@ def oracle(hist, rmodes, impl, lacts=None):
             if o.get("nsess", 0) > 1 or o["errors"] or (not o["connected"] and not lost_here):
                 bad.append(("connup:session-broken" + (":reentrant-registry-change" if reentrant else ""),
                             f"the new session did not survive telling the listeners (connections opened {o.get('nsess')}, "
-                            f"connected afterwards {o['connected']}, loop errors {o.get('error_kinds')}) although the accessory "
+                            f"connected afterwards {o['connected']}, loop errors {o.get('error_kinds')}, connector error "
+                            f"{o.get('connector_error')}) although the accessory "
                             "did not drop it", idx))
             delivered({})
             if not cutoff and not cut_here:
